@@ -381,7 +381,7 @@ Proof.
   destruct (get_line t (L - 1)) as [l1|]; [|discriminate].
   destruct (is_comment_or_blank l1); [|inversion H; lia].
   destruct (get_line t (L - 2)) as [l2|]; [|discriminate].
-  destruct (negb (ends_with_bslash l2) || ((lastl <? L - 2) && is_comment_or_blank l2)); [|inversion H; lia].
+  destruct (negb (line_continues l2) || ((lastl <? L - 2) && is_comment_or_blank l2)); [|inversion H; lia].
   apply IH in H. lia.
 Qed.
 
@@ -413,7 +413,7 @@ Proof.
   destruct (is_comment_or_blank l); [|apply (Hwalk next); [left; reflexivity|exact H]].
   destruct (lineno (n_start n) <? lineno next); cbn [negb] in H; [|discriminate].
   destruct (get_line t (lineno next - 1)) as [p|]; [|discriminate].
-  destruct (negb (ends_with_bslash p) || ((lastl <? lineno next - 1) && is_comment_or_blank p)).
+  destruct (negb (line_continues p) || ((lastl <? lineno next - 1) && is_comment_or_blank p)).
   - apply (Hwalk (mkPos (lineno next) 1)); [right; split; [reflexivity|lia]|exact H].
   - apply (Hwalk next); [left; reflexivity|exact H].
 Qed.
@@ -554,7 +554,7 @@ Proof.
   destruct (get_line t (L - 1)) as [l1|] eqn:G1; [|discriminate].
   destruct (is_comment_or_blank l1) eqn:C1; [|inversion H; lia].
   destruct (get_line t (L - 2)) as [l2|]; [|discriminate].
-  destruct (negb (ends_with_bslash l2) || ((lastl <? L - 2) && is_comment_or_blank l2)); [|inversion H; lia].
+  destruct (negb (line_continues l2) || ((lastl <? L - 2) && is_comment_or_blank l2)); [|inversion H; lia].
   destruct (Nat.eq_dec k (L - 1)) as [->|Hne]; [exists l1; auto|].
   apply (IH _ _ H). lia.
 Qed.
@@ -589,7 +589,7 @@ Proof.
   destruct (is_comment_or_blank l) eqn:C; [|exfalso; exact (Hstay H)].
   destruct (lineno (n_start n) <? lineno next); cbn [negb] in H; [|discriminate].
   destruct (get_line t (lineno next - 1)) as [p|]; [|discriminate].
-  destruct (negb (ends_with_bslash p) || ((lastl <? lineno next - 1) && is_comment_or_blank p)); [|exfalso; exact (Hstay H)].
+  destruct (negb (line_continues p) || ((lastl <? lineno next - 1) && is_comment_or_blank p)); [|exfalso; exact (Hstay H)].
   split; [|intros _; exists l; auto].
   apply (Hwalk (mkPos (lineno next) 1)); [reflexivity|cbn; intros; lia|exact H].
 Qed.
@@ -759,7 +759,7 @@ Proof.
   destruct (get_line_some t (L - 1)) as [l1 ->]; [lia|lia|].
   destruct (is_comment_or_blank l1); [|eexists; reflexivity].
   destruct (get_line_some t (L - 2)) as [l2 ->]; [lia|lia|].
-  destruct (negb (ends_with_bslash l2) || ((lastl <? L - 2) && is_comment_or_blank l2)); [|eexists; reflexivity].
+  destruct (negb (line_continues l2) || ((lastl <? L - 2) && is_comment_or_blank l2)); [|eexists; reflexivity].
   apply IH; lia.
 Qed.
 
@@ -784,7 +784,7 @@ Proof.
   destruct (is_comment_or_blank l); [|apply Hwalk; reflexivity].
   replace (lineno (n_start n) <? lineno next) with true by lia. cbn [negb].
   destruct (get_line_some t (lineno next - 1)) as [p ->]; [lia|lia|].
-  destruct (negb (ends_with_bslash p) || ((lastl <? lineno next - 1) && is_comment_or_blank p)); apply Hwalk; reflexivity.
+  destruct (negb (line_continues p) || ((lastl <? lineno next - 1) && is_comment_or_blank p)); apply Hwalk; reflexivity.
 Qed.
 
 Lemma slice_some t a b i1 j1 i2 j2 :
